@@ -23,6 +23,28 @@ package codec
 
 //@ define predValidName(s string) bool = predValidPrefix(s, len(s))
 
+// --- meta headers (C17) -------------------------------------------------------------------
+
+// Headers a service can never replace: Content-Type, the CORS allow headers, and every
+// Sec-WebSocket-* header (canonical form "Sec-Websocket-").
+//@ define predProtectedHeader(k string) bool = k == "Content-Type" || k == "Access-Control-Allow-Origin" ||
+//@     k == "Access-Control-Allow-Credentials" || (len(k) >= 14 && k[:14] == "Sec-Websocket-")
+
+// MergeHeader: protected headers of a are untouched, Set-Cookie values accumulate, every other
+// header of b replaces the one in a, headers not in b are untouched.
+//@ func MergeHeader
+//@   requires (b != nil ==> a != nil) && a != b
+//@   ensures[C17] forall k string :: predProtectedHeader(k) ==> has(a, k) == old(has(a, k)) && a[k] == old(a[k])
+//@   ensures[C17] forall k string :: has(b, k) && !predProtectedHeader(k) && k != "Set-Cookie" ==> has(a, k) && a[k] == b[k]
+//@   ensures[C17] forall k string :: !has(b, k) ==> has(a, k) == old(has(a, k)) && a[k] == old(a[k])
+//@   ensures[C17] has(b, "Set-Cookie") ==> has(a, "Set-Cookie") && len(a["Set-Cookie"]) == old(len(a["Set-Cookie"])) + len(b["Set-Cookie"])
+//@   safety[C15]
+//@   loop 1 invariant a != nil && (forall k string :: has(b, k) == old(has(b, k)) && b[k] == old(b[k]))
+//@   loop 1 invariant forall k string :: predProtectedHeader(k) ==> has(a, k) == old(has(a, k)) && a[k] == old(a[k])
+//@   loop 1 invariant forall k string :: visited1[k] && has(b, k) && !predProtectedHeader(k) && k != "Set-Cookie" ==> has(a, k) && a[k] == b[k]
+//@   loop 1 invariant forall k string :: !visited1[k] || !has(b, k) ==> has(a, k) == old(has(a, k)) && a[k] == old(a[k])
+//@   loop 1 invariant visited1["Set-Cookie"] && has(b, "Set-Cookie") ==> has(a, "Set-Cookie") && len(a["Set-Cookie"]) == old(len(a["Set-Cookie"])) + len(b["Set-Cookie"])
+
 // The decoded access result is never modified.
 //@ immutable AccessResult.Get, AccessResult.Call
 
